@@ -418,9 +418,38 @@ def chunks(jobs, n):
     return out
 
 
+HASHCHILD = os.environ.get('VERIF_HASHCHILD')
+
+
+def hash_seed_children(pid, tier, seed):
+    """The order in which a finished node notifies its descendants is a SET iteration (DESIGN 2.2): it varies with the
+    interpreter's string-hash seed.  The model instance carries the order networkx produces in the exporting process,
+    so the model-guided part is repeated in child interpreters started with other PYTHONHASHSEED values."""
+    import subprocess
+    seeds = [1] if tier == 'quick' else [1, 2, 3, 5]
+    out = []
+    for hs in seeds:
+        env = dict(os.environ, PYTHONHASHSEED=str(hs), VERIF_HASHCHILD=str(hs), VERIF_SEED=str(seed))
+        p = subprocess.run([sys.executable, '-m', 'harness.checks', pid, '--tier', 'quick'], cwd=ROOT, env=env,
+                           capture_output=True, text=True, timeout=3600)
+        info = {'hashseed': hs, 'rc': p.returncode}
+        for line in p.stdout.splitlines():
+            if line.startswith('HASHCHILD '):
+                info.update(json.loads(line[len('HASHCHILD '):]))
+            elif line.startswith(('VIOLATION', 'KNOWN-FINDING', 'MODEL-DRIFT', 'HARNESS-ERROR', 'MACHINERY')):
+                print(line + ('  # PYTHONHASHSEED=%d' % hs if line.startswith('VIOLATION') else ''))
+        out.append(info)
+    return out
+
+
 def run_runtime(pid, tier, seed):
     t0 = time.time()
     jobs = build_jobs(pid, tier, seed)
+    if HASHCHILD:
+        # keep only the model-guided configurations of the curated instances (a third of them when quick)
+        jobs = [(n, p, [c for c in cfgs if c['policy'][0] in ('model', 'model2')]) for n, p, cfgs in jobs]
+        jobs = [j for j in jobs if j[2]]
+        jobs = jobs[int(HASHCHILD) % 3::3]
     parts = chunks(jobs, NWORKERS * 2)
     results = []
     with concurrent.futures.ProcessPoolExecutor(NWORKERS) as pool:
@@ -451,6 +480,13 @@ def run_runtime(pid, tier, seed):
             if fresh:
                 new_viol.append(dict(v, clauses_new=fresh))
     rc = 0
+    children = []
+    if not HASHCHILD and pid not in ('C07', 'C08'):
+        children = hash_seed_children(pid, tier, seed)
+        if any(ch['rc'] == 1 for ch in children):
+            rc = 1
+        elif any(ch['rc'] not in (0, 1) for ch in children):
+            rc = 2
     os.makedirs(os.path.join(ROOT, 'replays'), exist_ok=True)
     for (c, what), progs_hit in sorted(known_hits.items()):
         print('KNOWN-FINDING: property=%s %s [%s] (re-observed on %s)' % (pid, what, c, ', '.join(sorted(progs_hit)[:4])))
@@ -460,7 +496,8 @@ def run_runtime(pid, tier, seed):
         if key in reported:
             continue
         reported.add(key)
-        path = os.path.join(ROOT, 'replays', '%s_%s_%d.json' % (pid, v['prog'].replace('#', '_').replace('*', '_'), len(reported)))
+        path = os.path.join(ROOT, 'replays', '%s%s_%s_%d.json' % (pid, ('hs' + HASHCHILD) if HASHCHILD else '',
+                                                                  v['prog'].replace('#', '_').replace('*', '_'), len(reported)))
         prog = [j[1] for j in jobs if j[0] == v['prog']][0]
         with open(path, 'w') as f:
             json.dump({'property': pid, 'program': prog, 'cfg': v['cfg'], 'clauses': v['clauses'],
@@ -504,6 +541,15 @@ def run_runtime(pid, tier, seed):
         'wall_s': round(time.time() - t0, 2),
         'violations': len(reported),
     }
+    if HASHCHILD:
+        print('HASHCHILD ' + json.dumps({'executions': total, 'instances': len(minfo), 'model_states': sum(m['states'] for m in minfo),
+                                         'replayed': sum(m['replayed'] for m in minfo), 'transitions': sum(m['transitions'] for m in minfo),
+                                         'drift': [m['prog'] for m in drift], 'violations': len(reported)}))
+        return rc
+    evidence['coverage']['hash_seeds'] = [0] + [ch['hashseed'] for ch in children]
+    evidence['coverage']['hash_seed_children'] = children
+    evidence['coverage']['traces_validated_against_impl'] = total + sum(ch.get('executions', 0) for ch in children)
+    evidence['violations'] = len(reported) + sum(ch.get('violations', 0) for ch in children)
     os.makedirs(os.path.join(ROOT, 'evidence'), exist_ok=True)
     with open(os.path.join(ROOT, 'evidence', pid + '.json'), 'w') as f:
         json.dump(evidence, f, indent=1)
